@@ -51,11 +51,16 @@ def sweep():
     _PROC_DIR.clear()
 
 
-def spaced_labels(nodes, delim):
+def spaced_labels(nodes, delim, line_boundaries=True):
     """With a delimiter that is not a blank, a label may contain a blank: 'zz' -> 'z z' (and 'n1' -> 'n 1')."""
     if delim in (None, ' '):
         return nodes
-    return [{'zz': 'z z', 'n1': 'n 1'}.get(n, n) if isinstance(n, str) else n for n in nodes]
+    m = {'zz': 'z z', 'n1': 'n 1'}
+    if line_boundaries and delim not in ('\t',):
+        # ... and characters that str.splitlines() / stream readers treat as line boundaries but a binary file does not:
+        # form feed, group separator, carriage return, NEL (all encodable in latin-1; the last one is not ascii)
+        m.update({'k9': 'k\x0c9', 'Q': 'Q\x1dq', 'A': 'A\ra', 'ß': 'ß\x85s'})
+    return [m.get(n, n) if isinstance(n, str) else n for n in nodes]
 
 
 def ascii_only(nodes):
